@@ -172,6 +172,7 @@ def _on_instr(code, off):
 
 LINE_CODES = set()
 LINE_FILES = set()
+EXTRA_CRITICAL = set()  # co_names of every function monitored at instruction level
 
 
 def _on_line(code, line, _codes=LINE_CODES, _files=LINE_FILES, _disable=mon.DISABLE):
@@ -226,6 +227,35 @@ def setup(extra_line_functions=()):
             T.transform, S.InternedMC.__call__, O.fits_selector]
     if hasattr(P.Probe, "__exit__") and "__exit__" in P.Probe.__dict__:
         line.append(P.Probe.__dict__["__exit__"])
+    # helpers the critical functions call by name (e.g. a function factored out of _apply) are
+    # critical too: close the set over the names each code object refers to
+    import ast
+    import types
+
+    table = {}
+    for m in (T, O, P):
+        for k, v in vars(m).items():
+            if isinstance(v, types.FunctionType) and v.__module__ == m.__name__:
+                table.setdefault(k, []).append(v)
+            elif isinstance(v, type) and v.__module__ == m.__name__ and not issubclass(v, ast.NodeVisitor):
+                for mk, mv in vars(v).items():
+                    mv = getattr(mv, "__func__", mv)
+                    if isinstance(mv, types.FunctionType):
+                        table.setdefault(mk, []).append(mv)
+    deny = {f.__code__ for f in line} | {T.transform.__code__}
+    deny_names = {"__init__", "__call__", "select", "parse", "verify", "proceed", "accum", "values"}
+    seen = {f.__code__ for f in instr}
+    work = list(instr)
+    while work:
+        f = work.pop()
+        for n in f.__code__.co_names:
+            for g in table.get(n, ()):
+                if g.__code__ not in seen and g.__code__ not in deny and n not in deny_names:
+                    seen.add(g.__code__)
+                    instr.append(g)
+                    work.append(g)
+    EXTRA_CRITICAL.clear()
+    EXTRA_CRITICAL.update(f.__code__.co_name for f in instr)
     for fn in instr:
         mon.set_local_events(TOOL, fn.__code__, mon.events.INSTRUCTION)
     for fn in list(line) + list(extra_line_functions):
